@@ -5,6 +5,18 @@ PROPS = [json.loads(l) for l in open(os.path.join(VERIF, 'properties.jsonl'))]
 
 # pid -> (technique, level text, level note, design ref)
 CLAIMED = {
+ 'C06': ('Coq proof of atomicity over a model of the sqlite3 connection\'s `with conn:` transaction behaviour, tied to the code by '
+         'the statement trace of every clean run (one BEGIN..COMMIT per add, one per removed lexicon); exhaustive fault '
+         'enumeration on the real code as the failing-input search',
+         'Theorems (closed under the global context): an exception at any point of a block commits nothing, leaves no '
+         'transaction open and the connection reusable; for every statement sequence and every failure point k the committed '
+         'database is unchanged; a failing statement has the same effect; an interrupted removal leaves exactly a prefix of '
+         'the per-lexicon blocks applied, each complete. What the theorems cannot show (that the code really wraps all '
+         'statements of one add in one block, SQLite\'s rollback, the pooled connection) is covered by the trace tie and by '
+         'raising at every progress callback, denying every INSERT/UPDATE/DELETE in turn and corrupting single references.',
+         'Trusted: Coq kernel + vm_compute; SQLite rollback and Python sqlite3 transaction handling (modelled by Txn.v, '
+         'validated by trace shape and fault enumeration); PRAGMA synchronous/journal_mode (crash safety is outside the property).',
+         'DESIGN.md section 5, C06'),
  'C08': ('Coq proof over a Gallina model of find_lexicons (glob matcher for * and ?, specifier splitting, most-recent rule, '
          'language filter) against an independently written "documented selection"; differential correspondence on databases '
          'built by add/remove histories',
